@@ -206,6 +206,69 @@ fn filesystem() {
     simrt::finish();
 }
 
+/// Contained crashes: a simulated thread crashes; its drop handlers take locks (and therefore
+/// yield) while the unwind is in flight; other threads keep running meanwhile and must see
+/// neither `panicking()` nor poisoned locks; a lock held across the crash is poisoned as std
+/// would poison it; the execution goes on and ends normally.
+fn contained_crash() {
+    use std::sync::atomic::AtomicBool;
+    simrt::start(simrt::WorldCfg::default());
+    struct OnDrop(Arc<Mutex<u32>>, Arc<AtomicBool>, Arc<Condvar>);
+    impl Drop for OnDrop {
+        fn drop(&mut self) {
+            // like quandary's RespawnableHandle: asks panicking(), locks, waits with a time-out
+            self.1.store(simrt::thread::panicking(), SeqCst);
+            let g = self.0.lock().unwrap();
+            let (mut g, _) = self.2.wait_timeout(g, Duration::from_millis(5)).unwrap();
+            *g += 100;
+        }
+    }
+    let shared = Arc::new(Mutex::new(0u32));
+    let held = Arc::new(Mutex::new(0u32));
+    let cv = Arc::new(Condvar::new());
+    let saw_panicking_in_drop = Arc::new(AtomicBool::new(false));
+    let others_saw_panicking = Arc::new(AtomicBool::new(false));
+    let crasher = {
+        let (shared, held, cv, saw) = (shared.clone(), held.clone(), cv.clone(), saw_panicking_in_drop.clone());
+        simrt::thread::Builder::new()
+            .name("crasher".into())
+            .spawn(move || {
+                let _d = OnDrop(shared, saw, cv);
+                let _h = held.lock().unwrap(); // held across the crash: must end up poisoned
+                simrt::thread::sleep(Duration::from_millis(1));
+                simrt::thread::crash();
+            })
+            .unwrap()
+    };
+    let workers: Vec<_> = (0..2)
+        .map(|_| {
+            let (shared, others) = (shared.clone(), others_saw_panicking.clone());
+            simrt::thread::spawn(move || {
+                for _ in 0..6 {
+                    let mut g = shared.lock().unwrap(); // must never be poisoned
+                    *g += 1;
+                    if simrt::thread::panicking() {
+                        others.store(true, SeqCst);
+                    }
+                    drop(g);
+                    simrt::thread::sleep(Duration::from_millis(1));
+                }
+            })
+        })
+        .collect();
+    assert!(crasher.join().is_err(), "a crashed thread must join as Err");
+    for w in workers {
+        w.join().expect("worker");
+    }
+    assert!(saw_panicking_in_drop.load(SeqCst), "panicking() must be true in the crashed thread's drop handlers");
+    assert!(!others_saw_panicking.load(SeqCst), "panicking() must be false in threads that do not unwind");
+    assert_eq!(*shared.lock().unwrap(), 112);
+    assert!(held.lock().is_err(), "a lock held across the crash must be poisoned");
+    assert!(!simrt::thread::panicking());
+    simrt::thread::wait_all_exited();
+    simrt::finish();
+}
+
 pub fn run() -> i32 {
     let mut ok = true;
     ok &= run_many("sleepers-des", 300, ClockPolicy::Des, sleepers);
@@ -214,6 +277,8 @@ pub fn run() -> i32 {
     ok &= run_many("condvar-eager", 500, ClockPolicy::Eager(30), condvar_semantics);
     ok &= run_many("tcp-udp", 200, ClockPolicy::Des, tcp_and_udp);
     ok &= run_many("filesystem", 20, ClockPolicy::Des, filesystem);
+    ok &= run_many("contained-crash-des", 500, ClockPolicy::Des, contained_crash);
+    ok &= run_many("contained-crash-eager", 500, ClockPolicy::Eager(30), contained_crash);
     if ok {
         0
     } else {
